@@ -336,6 +336,13 @@ func (h *FBDNSDB) Reload(s ReloadSignal) (err error) {
 	h.reloadMu.Lock()
 	defer h.reloadMu.Unlock()
 
+	select {
+	case <-h.done:
+		// a signal that was queued before Close: the database is destroyed, there is nothing to reload
+		return errors.New("reload requested after the database was closed")
+	default:
+	}
+
 	switch s.Kind {
 	case FullReload:
 		if s.Payload == "" {
